@@ -383,6 +383,9 @@ func Execute(p *Prog, seed int64, procs int, script []string, prefix []int) (*Ru
 	ctl := sched.New()
 	ctl.AutoRelease = autoRelease
 	ctl.MaxSteps = 20000
+	if p.maxSteps > 0 {
+		ctl.MaxSteps = p.maxSteps
+	}
 	opts := []task.ExecutorOption{task.WithDir(dir), task.WithStdout(ctl.Writer("out")), task.WithStderr(ctl.Writer("err")),
 		task.WithVerbose(true), task.WithConcurrency(p.Cfg.N), task.WithParallel(p.Cfg.Parallel), task.WithForce(p.Cfg.Force),
 		task.WithForceAll(p.Cfg.ForceAll), task.WithAssumeYes(p.Cfg.Yes)}
